@@ -801,6 +801,19 @@ func soloConfirm(self string, w workerArgs, idx int, why, errTail, logDir string
 				for _, m := range []string{"fatal error:", "panic:", "goroutine ", "WARNING: DATA RACE", "SIGQUIT"} {
 					crashed = crashed || strings.Contains(errTail, m)
 				}
+				soloCPU := -1.0
+				if cmd.ProcessState != nil {
+					if ru, ok := cmd.ProcessState.SysUsage().(*syscall.Rusage); ok && ru != nil {
+						soloCPU = float64(ru.Utime.Sec+ru.Stime.Sec) + float64(ru.Utime.Usec+ru.Stime.Usec)/1e6
+					}
+				}
+				if !crashed && strings.HasPrefix(why, "cpu:") && soloCPU >= 0 && soloCPU < budget/4 {
+					// the case was charged more CPU time than its budget in the batch and needs a fraction of it alone
+					// (seen when the whole machine was frozen for a snapshot: six workers were charged 20.3 s at the
+					// same moment): not a property of the case
+					class = "harness-flake"
+					why += fmt.Sprintf(" (alone: %.1fs)", soloCPU)
+				}
 				if !crashed && strings.HasPrefix(why, "worker died") {
 					// the worker process went away without a word on stderr (no Go panic, no fatal error, no race report:
 					// those always leave a trace) and the case completes alone: a hiccup of the environment, tolerated in
